@@ -307,7 +307,8 @@ impl Hub {
                 terraswap_pair::contract::instantiate,
                 terraswap_pair::contract::query,
             )
-            .with_reply_empty(terraswap_pair::contract::reply),
+            .with_reply_empty(terraswap_pair::contract::reply)
+            .with_migrate_empty(child_migrate_accepts),
         ));
         let trio_id = app.store_code(Box::new(
             ContractWrapper::new_with_empty(
@@ -315,7 +316,8 @@ impl Hub {
                 stableswap_3pool::contract::instantiate,
                 stableswap_3pool::contract::query,
             )
-            .with_reply_empty(stableswap_3pool::contract::reply),
+            .with_reply_empty(stableswap_3pool::contract::reply)
+            .with_migrate_empty(child_migrate_accepts),
         ));
         let pfac_id = app.store_code(Box::new(
             ContractWrapper::new_with_empty(
@@ -338,11 +340,10 @@ impl Hub {
             )
             .with_reply_empty(incentive_factory::contract::reply),
         ));
-        let inc_id = app.store_code(Box::new(ContractWrapper::new_with_empty(
-            incentive::contract::execute,
-            incentive::contract::instantiate,
-            incentive::contract::query,
-        )));
+        let inc_id = app.store_code(Box::new(
+            ContractWrapper::new_with_empty(incentive::contract::execute, incentive::contract::instantiate, incentive::contract::query)
+                .with_migrate_empty(child_migrate_accepts),
+        ));
         let helper_id = app.store_code(Box::new(
             ContractWrapper::new_with_empty(
                 frontend_helper::contract::execute,
@@ -361,7 +362,8 @@ impl Hub {
         ));
         let vault_id = app.store_code(Box::new(
             ContractWrapper::new_with_empty(vault::contract::execute, vault::contract::instantiate, vault::contract::query)
-                .with_reply_empty(vault::reply::reply),
+                .with_reply_empty(vault::reply::reply)
+                .with_migrate_empty(child_migrate_accepts),
         ));
         let vrouter_id = app.store_code(Box::new(ContractWrapper::new_with_empty(
             vault_router::contract::execute,
@@ -1260,4 +1262,15 @@ pub mod erased {
             to_json_binary(self).unwrap()
         }
     }
+}
+
+
+/// `migrate` entry point of the CHILD codes (pair, 3pool, incentive, vault) of the matrix hub: accepts. The real children
+/// refuse a migration to their own version (`MigrateInvalidVersion`), so every factory `Migrate*` message failed AFTER
+/// its authorisation check whoever sent it, and a weakened check was visible as a correspondence divergence only (seed
+/// C16-U: `MigrateVaults` open to anyone for the configured code id). With an accepting child the admitted call goes
+/// through and `unauthorised_rejected` judges it. (What a child's own `migrate` does is studied by the toggles /
+/// config / lair engines.)
+fn child_migrate_accepts(_deps: cosmwasm_std::DepsMut, _env: cosmwasm_std::Env, _msg: cosmwasm_std::Empty) -> cosmwasm_std::StdResult<cosmwasm_std::Response> {
+    Ok(cosmwasm_std::Response::new())
 }
